@@ -45,6 +45,7 @@ type scenario struct {
 	Section string
 	Path    string // append | senddirect | queue
 	Mode    byte   // S | R
+	ErrPlan string // which hand-overs the client answers with an error (errPlan.String)
 	Epochs  []epoch
 	Handed  [][]*recSpec // per producer, in hand-over order
 	byID    map[string]*recSpec
@@ -68,6 +69,21 @@ func newScenario(c *vlib.Ctx, section, path string, mode byte) *scenario {
 		tailIDs: map[string]bool{}, notAccepted: map[string]bool{},
 		inQueue: map[string]bool{}, late: map[string]bool{}, Desc: map[string]interface{}{},
 		bad: map[string]string{}, excused: map[string]bool{}}
+}
+
+// setErrPlan scripts the client's answers for this scenario.
+func (sc *scenario) setErrPlan(client *recClient, p *errPlan) {
+	client.plan = p
+	sc.ErrPlan = p.String()
+	sc.Desc["client_errors"] = sc.ErrPlan
+	sc.c.SetAdd("client_error_plans", p.Kind)
+}
+
+func (h *handover) answered() string {
+	if h.Err == "" {
+		return "nil"
+	}
+	return "error: " + h.Err
 }
 
 // handBad notes an unencodable record that is about to be handed over.
@@ -146,6 +162,7 @@ type packView struct {
 	PayloadLen int      `json:"payload_len"`
 	WireLen    int      `json:"stored_len"`
 	IDs        []string `json:"ids"`
+	Answered   string   `json:"client_answered"`
 }
 
 func (sc *scenario) detail(extra map[string]interface{}, packs []packView) map[string]interface{} {
@@ -282,7 +299,7 @@ func (sc *scenario) evaluate() {
 	}
 
 	for pi, h := range sc.hs {
-		v := packView{Index: pi}
+		v := packView{Index: pi, Answered: h.answered()}
 		d := decoded{}
 		var status byte
 		var count int64
@@ -591,6 +608,43 @@ func (sc *scenario) evaluate() {
 			fail("ZipSender:retained-pack-altered/"+sc.Path,
 				fmt.Sprintf("pack %d (status %d, %d records, %d bytes) retained by the client changed after hand-over: first differing byte %d — later records were written into the same memory", pi, h.Status, h.Count, len(h.Records), at),
 				extra)
+		}
+	}
+	// evidence: hand-overs the client answered with an error and what the sender did afterwards
+	// (no verdict of its own: a pack passed to the client is emitted whatever the client answered,
+	// so everything above applies unchanged to the packs before, at and after a failed hand-over)
+	nerr := 0
+	for pi, h := range sc.hs {
+		if pi > 0 && sc.hs[pi-1].Err != "" && dec[pi].ok {
+			// record count, compression rule and flush triggers of the pack right after a failure
+			c.Count("packs_right_after_a_failed_handover_fully_judged", 1)
+			c.Count("packs_right_after_a_failed_handover_fully_judged/"+sc.Path, 1)
+		}
+		if h.Err == "" {
+			continue
+		}
+		nerr++
+		c.Count("handovers_answered_with_error", 1)
+		c.Count("handovers_answered_with_error/"+sc.Path, 1)
+		c.Count("handovers_answered_with_error/section/"+sc.Section, 1)
+		c.SetAdd("client_error_values", h.Err)
+		if pi < len(sc.hs)-1 {
+			c.Count("handovers_answered_with_error_followed_by_further_packs", 1)
+			c.Count("handovers_answered_with_error_followed_by_further_packs/"+sc.Path, 1)
+		}
+		if h.Retained != nil {
+			c.Count("handovers_answered_with_error_pack_retained", 1)
+		} else {
+			c.Count("handovers_answered_with_error_pack_consumed", 1)
+		}
+		if h.AfterCancel {
+			c.Count("handovers_after_cancellation_answered_with_error", 1)
+		}
+	}
+	if nerr > 0 {
+		c.Count("scenarios_with_client_errors", 1)
+		if nerr == len(sc.hs) {
+			c.Count("scenarios_with_every_handover_answered_with_error", 1)
 		}
 	}
 	for _, f := range fails {
